@@ -7,7 +7,7 @@ EXTENDS Bind, Json
 CONSTANTS Kind,            \* "bind" | "ret"
           CtxSet,          \* mixin, function, content
           MaxParams, DefSet, RestSet,
-          MaxPos, NamedPool, MaxNamed, PSplats, NSplats,
+          MaxPos, NamedPool, MaxNamed, MapPool, MaxMap, PSplats,
           ItemSet, MaxItems
 
 VARIABLES inp, phase
@@ -20,7 +20,7 @@ Init == inp = [kind |-> "none"] /\ phase = "start"
 
 BindStart == /\ Kind = "bind" /\ phase = "start"
              /\ \E c \in CtxSet : inp' = [kind |-> "bind", ctx |-> c, defs |-> <<>>, rest |-> 0, npos |-> 0,
-                                          named |-> <<>>, psplat |-> "none", nsplat |-> "none"]
+                                          named |-> <<>>, mnamed |-> <<>>, psplat |-> "none"]
              /\ phase' = "defs"
 AddParam == /\ Kind = "bind" /\ phase = "defs" /\ Len(inp.defs) < MaxParams
             /\ \E d \in DefSet :
@@ -31,11 +31,10 @@ EndDefs == /\ Kind = "bind" /\ phase = "defs"
            /\ \E r \in RestSet : inp' = [inp EXCEPT !.rest = r]
            /\ phase' = "call"
 Call == /\ Kind = "bind" /\ phase = "call"
-        /\ \E np \in 0..MaxPos, S \in SUBSET NamedPool, ps \in PSplats, ns \in NSplats :
-             /\ Cardinality(S) <= MaxNamed
+        /\ \E np \in 0..MaxPos, S \in SUBSET NamedPool, M \in SUBSET MapPool, ps \in PSplats :
+             /\ Cardinality(S) <= MaxNamed /\ Cardinality(M) <= MaxMap
              /\ (ps = "all" => np >= 1) /\ (ps = "tail" => np >= 2)
-             /\ (ns = "all" => S # {} /\ "b_x" \notin S)
-             /\ inp' = [inp EXCEPT !.npos = np, !.named = InSet(S), !.psplat = ps, !.nsplat = ns]
+             /\ inp' = [inp EXCEPT !.npos = np, !.named = InSet(S), !.mnamed = InSet(M), !.psplat = ps]
         /\ phase' = "done"
 
 RetStart == /\ Kind = "ret" /\ phase = "start"
@@ -57,5 +56,5 @@ LawWellFormed == Done => WellFormed(inp)
 
 Emit == Done =>
   LET e == Ideal(inp) IN
-  (e.k # "undef") => PrintT(<<"VEC", ToJson([inp |-> inp, expect |-> e, dev |-> DevMap(inp)])>>)
+  (e.k # "undef") => PrintT(<<"VEC", ToJson([inp |-> inp, expect |-> e, dev |-> DevMap(inp), adm |-> AdmSeq(inp)])>>)
 =============================================================================
